@@ -327,7 +327,9 @@ func applyDeviation(t *rapid.T, label, kind string, streams []*convStream, rpcs 
 // genRawClient: a valid interleaved conversation for 1-4 streams, 0-3 deviations, and a final conforming unary stream.
 func genRawClientWith(t *rapid.T, devs []string, ndev int) *Case {
 	c := &Case{Prop: "raw_client"}
-	c.Cfg = Config{Dir: "fwd", ClientFC: "on", ServerFC: rapid.SampledFrom([]string{"on", "on", "on", "off"}).Draw(t, "server_fc")}
+	// the real tunnel server under test is the handler's OpenTunnel (forward) or ReverseTunnelServer.Serve (reverse: the raw peer
+	// is then the network server, and the carrier's context outlives the serving call)
+	c.Cfg = Config{Dir: rapid.SampledFrom([]string{"fwd", "fwd", "rev"}).Draw(t, "dir"), ClientFC: "on", ServerFC: rapid.SampledFrom([]string{"on", "on", "on", "off"}).Draw(t, "server_fc")}
 	c.Cfg.Cap = rapid.SampledFrom([]int{0, 0, 0, 2, 8}).Draw(t, "cap")
 	raw := &Raw{Role: "client", Negotiate: true, WaitSettings: true, AutoCredit: true}
 	if rapid.IntRange(0, 5).Draw(t, "legacy") == 0 {
